@@ -28,6 +28,9 @@ def run(ctx):
     r166(ctx, ut)
     from . import c14
     r168(ctx, wr)
+    r169(ctx)
+    from . import c02 as _c02
+    _c02.r22(ctx)
     c14.r145(ctx, 'R16.7')
     from . import callsigs as _cs
     _cs.general_rules(ctx, 'R16', ['writer.write', 'writer.update_file_custom_metadata', 'util.update_custom_metadata', 'writer.write_simple', 'writer.write_multi', 'writer.write_common_metadata', 'writer.consolidate_categories'])
@@ -349,3 +352,30 @@ def r168(ctx, wr, rule='R16.8'):
                            isinstance(kw, ast.Constant) and kw.value is True,
                            '`%s`: user keys and values are arbitrary bytes; a strict decode raises on the first non-UTF-8 one' % norm(c), m.loc(c))
     ctx.stat('%s decodes of key-value text' % rule, n)
+
+
+def r169(ctx, rule='R16.9'):
+    """ParquetFile.key_value_metadata hands out the handle's cached dict: no code of the package mutates it (a reader
+    that pops an entry changes what the handle reports from then on); the cache is dropped by assigning None - the
+    class-level default - never by `del`, which raises when the cache was not filled yet"""
+    n = 0
+    for mname in ('api', 'util', 'writer', 'core'):
+        m = ctx.repo[mname]
+        for q, f in m.funcs.items():
+            for x in walk_no_nested(f):
+                if isinstance(x, ast.Call) and isinstance(x.func, ast.Attribute) and x.func.attr in ('pop', 'popitem', 'clear', 'update', 'setdefault') \
+                        and norm(x.func.value).endswith('.key_value_metadata'):
+                    n += 1
+                    ctx.ob(rule, '%s.%s:cached-key-value-dict-not-mutated:%s' % (mname, q, norm(x)[:40]), False,
+                           '`%s` changes the dict every later key_value_metadata call returns' % norm(x)[:80], m.loc(x))
+                if isinstance(x, ast.Delete):
+                    for t in x.targets:
+                        if isinstance(t, ast.Attribute) and t.attr in ('_kvm', '_pdm', '_statistics', '_categories'):
+                            n += 1
+                            ctx.ob(rule, '%s.%s:cache-dropped-by-assignment-not-del:%s' % (mname, q, norm(t)), False,
+                                   '`del %s`: the attribute exists on the instance only once the cache was filled (the default is a class '
+                                   'attribute); a second reset in a row raises AttributeError half-way through the update' % norm(t), m.loc(x))
+    ut = ctx.repo['util']
+    f = ut.func('update_custom_metadata')
+    resets = [st for st in walk_no_nested(f) if isinstance(st, ast.Assign) and norm(st.targets[0]).endswith('._kvm') and norm(st.value) == 'None']
+    ctx.ob(rule, 'util.update_custom_metadata:handle-cache-reset-after-the-update', len(resets) == 1, '', ut.loc(f))
